@@ -28,11 +28,16 @@ let data_s (bs : n list) : string =
   else if List.length bs mod 4 <> 0 then
     "x" ^ String.concat "" (List.map (fun b -> Printf.sprintf "%02x" (int_of_n b)) bs)
   else begin
-    let rec go = function
-      | a :: b :: c :: d :: r ->
-          string_of_int (((int_of_n a * 256 + int_of_n b) * 256 + int_of_n c) * 256 + int_of_n d) :: go r
+    let rec words = function
+      | a :: b :: c :: d :: r -> (((int_of_n a * 256 + int_of_n b) * 256 + int_of_n c) * 256 + int_of_n d) :: words r
       | _ -> [] in
-    String.concat "." (go bs)
+    let rec runs = function
+      | [] -> []
+      | v :: r ->
+          let rec cnt k = function x :: r' when x = v -> cnt (k + 1) r' | rest -> (k, rest) in
+          let (k, rest) = cnt 1 r in
+          (if k > 1 then Printf.sprintf "%d*%d" v k else string_of_int v) :: runs rest in
+    String.concat "." (runs (words bs))
   end
 
 let role_s = function Leader -> "L" | Follower -> "F" | PreCandidate -> "P" | Candidate -> "C" | Shutdown -> "S"
@@ -355,6 +360,7 @@ let parse_label (w : world) (cmap : (int, n) Hashtbl.t) (l : string) : label opt
   | "ADD" -> Some (LAddServer (node 1, node 2, f.(3) = "1"))
   | "REMOVE" -> Some (LRemoveServer (node 1, node 2))
   | "BUDGET" -> Some (LBudget (node 1, node 2))
+  | "PAD" -> Some (LPad (node 1, node 2))
   | "CRASH" -> Some (LCrash (node 1))
   | "RESTART" -> Some (LRestart (node 1))
   | _ -> None
@@ -557,9 +563,11 @@ let parse_data (s : string) : n list =
   if s = "-" then []
   else if s.[0] = 'x' then
     List.init ((String.length s - 1) / 2) (fun i -> n_of_int (int_of_string ("0x" ^ String.sub s (1 + 2 * i) 2)))
-  else List.concat_map (fun v ->
-      let v = int_of_string v in
-      [n_of_int ((v lsr 24) land 255); n_of_int ((v lsr 16) land 255); n_of_int ((v lsr 8) land 255); n_of_int (v land 255)])
+  else List.concat_map (fun tok ->
+      let (v, k) = match String.split_on_char '*' tok with
+        | [v; k] -> (int_of_string v, int_of_string k) | _ -> (int_of_string tok, 1) in
+      let w = [n_of_int ((v lsr 24) land 255); n_of_int ((v lsr 16) land 255); n_of_int ((v lsr 8) land 255); n_of_int (v land 255)] in
+      List.concat (List.init k (fun _ -> w)))
       (String.split_on_char '.' s)
 
 let parse_request (toks : string list) : request =
